@@ -17,8 +17,9 @@ UNITS = ["src/abg-writer.cc"]
 def run(ctx):
     ctx.clause = ("a hash-style type id is a function of the type's internal pretty representation (plus collision "
                   "probing against a per-writer set): it cannot depend on emission order counters or addresses")
-    ctx.rules = ["R-HASHID"]
+    ctx.rules = ["R-HASHID", "R-IDUNIQ"]
     P = ctx.program(UNITS)
+    check_iduniq(ctx, P)
     fs = [f for f in P.fn("abigail::xml_writer::write_context::get_id_for_type")
           if "*" in (f.unit.type(f.params()[0]["t"]) or {}).get("s", "")]
     if len(fs) != 1:
@@ -132,3 +133,106 @@ def run(ctx):
     ctx.ob("R-HASHID", "the hash arm uses no counter, address or static state", not forb, f.loc(arm[0]),
            "forbidden ingredients: %s" % (sorted(set(forb)) or "none"))
     ctx.assume("distinct types with colliding hashes get ids that depend on emission order (the property's own proviso)")
+
+
+def check_iduniq(ctx, P, rule="R-IDUNIQ"):
+    """R-IDUNIQ: a hash-style id that is handed out has been *inserted* into the per-writer set of used hashes.
+    Forward dataflow over write_context::get_id_for_type: the fact INS(hash) is established on the edge on which
+    `m_used_type_id_hashes.insert(hash).second` is true, killed by any write to `hash`; at the point where the hash
+    is formatted into the id string INS must hold on every path.  Otherwise two types can be given one id."""
+    from engine.cfg import forward, state_before, TOP
+    fs = [f for f in P.fn("abigail::xml_writer::write_context::get_id_for_type")
+          if "*" in (f.unit.type(f.params()[0]["t"]) or {}).get("s", "")]
+    if len(fs) != 1:
+        raise AnalysisBroken("anchor vanished: write_context::get_id_for_type(type_base*)")
+    f = fs[0]
+    ctx.analysed(f)
+    cfg = f.cfg()
+    hid = None
+    for n in f.nodes():
+        if n["k"] == "VarDecl" and n.get("c") and any(
+                x["k"] == "CallExpr" and (f.decl(x) or {}).get("n") == "fnv_hash" for x in walk(n["c"][0])):
+            hid = n.get("d")
+    if hid is None:
+        raise AnalysisBroken("anchor vanished: the local initialised from fnv_hash() in get_id_for_type")
+
+    def is_hash(e):
+        e = strip_casts(e)
+        return e is not None and e["k"] == "DeclRefExpr" and e.get("d") == hid
+
+    def insert_second(e):
+        """e is  <set>.insert(hash).second"""
+        e = strip_casts(e)
+        if e is None or e["k"] != "MemberExpr" or (f.decl(e) or {}).get("n") != "second" or not e.get("c"):
+            return False
+        c = strip_casts(e["c"][0])
+        return c is not None and c["k"] == "CXXMemberCallExpr" and (f.decl(c) or {}).get("n") in ("insert", "emplace") \
+            and call_args(c) and is_hash(call_args(c)[0])
+
+    def facts_of(cond, truth):
+        c = strip_casts(cond)
+        if c is None:
+            return set()
+        if c["k"] == "UnaryOperator" and c.get("op") == "!":
+            return facts_of(c["c"][0], not truth)
+        if c["k"] == "BinaryOperator" and c.get("op") == "&&" and truth:
+            return facts_of(c["c"][0], True) | facts_of(c["c"][1], True)
+        if c["k"] == "BinaryOperator" and c.get("op") == "||" and not truth:
+            return facts_of(c["c"][0], False) | facts_of(c["c"][1], False)
+        if insert_second(c) and truth:
+            return {"INS"}
+        if c["k"] == "DeclRefExpr" and truth:
+            return {("INS-IF", c.get("d"))}      # resolved against the alias facts in edge()
+        return set()
+
+    def transfer(st, n, blk):
+        # bool inserted = set.insert(hash).second;   /   inserted = set.insert(hash).second;
+        tgt = rhs = None
+        if n["k"] == "VarDecl" and n.get("c") and n["c"][0] is not None:
+            tgt, rhs = n.get("d"), n["c"][0]
+        elif n["k"] == "BinaryOperator" and n.get("op") == "=" and strip_casts(n["c"][0]) is not None and \
+                strip_casts(n["c"][0])["k"] == "DeclRefExpr":
+            tgt, rhs = strip_casts(n["c"][0]).get("d"), n["c"][1]
+        if tgt is not None and tgt != hid:
+            st = frozenset(x for x in st if not (isinstance(x, tuple) and x[0] == "ALIAS" and x[1] == tgt))
+            if insert_second(rhs):
+                st = st | {("ALIAS", tgt)}
+            return st
+        kill = lambda s_: frozenset(x for x in s_ if x != "INS" and not (isinstance(x, tuple) and x[0] == "ALIAS"))
+        if n["k"] == "UnaryOperator" and n.get("op") in ("++", "--") and is_hash(n["c"][0]):
+            return kill(st)
+        if n["k"] in ("BinaryOperator", "CompoundAssignOperator") and n.get("op", "").endswith("=") and \
+                n.get("op") not in ("==", "!=", "<=", ">=") and is_hash(n["c"][0]):
+            return kill(st)
+        if n["k"] == "VarDecl" and n.get("d") == hid:
+            return kill(st)
+        return st
+
+    def edge(st, blk, idx):
+        if cfg.branch(blk.id) is None:
+            return st
+        add = set()
+        for c in cfg.branch_conds(blk.id):
+            for fact in facts_of(c, idx == 0):
+                if isinstance(fact, tuple) and fact[0] == "INS-IF":
+                    if ("ALIAS", fact[1]) in st:
+                        add.add("INS")
+                else:
+                    add.add(fact)
+        return st | frozenset(add)
+    ins, _ = forward(cfg, frozenset(), transfer, edge)
+    uses = []
+    for x in f.nodes():
+        if x["k"] == "CXXOperatorCallExpr" and x.get("op") == "<<" and is_hash(call_args(x)[1]):
+            uses.append(x)
+    ctx.floor(rule, "places where the hash is formatted into an id", len(uses), 1)
+    for i, x in enumerate(uses):
+        st = state_before(cfg, ins, transfer, x)
+        ok = st is not TOP and "INS" in st
+        ctx.ob(rule, "get_id_for_type: the hash formatted into the id #%d was inserted into the used-hash set" % (i + 1),
+               ok, f.loc(x),
+               "every path to the formatting passes the true edge of insert(hash).second after the last write to hash"
+               if ok else
+               "a path reaches the formatting of `hash` without a successful insert of that value into the set of used "
+               "hashes (the probe picks a free value but never registers it): the next colliding type is given the "
+               "same id")
